@@ -13,6 +13,7 @@ EXPLANATION = (
     "current statement count, predefined, adds no statement and does not advance the line counter; the preprocessor maps it "
     "to a marker token and no data. R5 (DOM): every Proceed of the pausing code is dominated by the breakpoint/HALT test, "
     "which is given the current PC, and in the run loop the pausing call is on every path to execute while attached."
+    ' R3 follows the .break list from try_from through Debugger::new into the breakpoints field and requires exactly one with_orig on that route. R5 also: outside the interrupt check the just-paused marker may only be cleared.'
 )
 NOT_DECIDED = ("that the shape rules of insert amount to sortedness for every history (argued on paper from R2); the "
                "re-arming of a breakpoint across loop revisits (current_breakpoint logic) is only checked to be reset on the "
